@@ -491,6 +491,20 @@ func c06directed(c *mon.Ctx) {
 		{"a in b", func(a, b *model.Expr) *model.Expr { return model.Bin(model.OIn, a, b) }},
 		{"a in [b, X]", func(a, b *model.Expr) *model.Expr { return model.Bin(model.OIn, a, model.SetE(b, lx)) }},
 		{"a is U in b", func(a, b *model.Expr) *model.Expr { return model.IsIn(a, "U", b) }},
+		// both operands of the membership test are KNOWN (X is a child of Z in the store) while
+		// another conjunct is unknown: the known part is folded at partial-evaluation time
+		{"X is U in Z && a == b", func(a, b *model.Expr) *model.Expr {
+			return model.Bin(model.OAnd, model.IsIn(lx, "U", model.Lit(model.Ent("G", "a"))), model.Bin(model.OEq, a, b))
+		}},
+		{"a == b && X in Z", func(a, b *model.Expr) *model.Expr {
+			return model.Bin(model.OAnd, model.Bin(model.OEq, a, b), model.Bin(model.OIn, lx, model.Lit(model.Ent("G", "a"))))
+		}},
+		{"X in [Z, a] || a == b", func(a, b *model.Expr) *model.Expr {
+			return model.Bin(model.OOr, model.Bin(model.OIn, lx, model.SetE(model.Lit(model.Ent("G", "a")), a)), model.Bin(model.OEq, a, b))
+		}},
+		{"if X is U in Z then a == b else false", func(a, b *model.Expr) *model.Expr {
+			return model.If(model.IsIn(lx, "U", model.Lit(model.Ent("G", "a"))), model.Bin(model.OEq, a, b), model.Lit(model.Bool(false)))
+		}},
 		{"a is G in [b, 1]", func(a, b *model.Expr) *model.Expr { return model.IsIn(a, "G", model.SetE(b, model.Lit(model.Long(1)))) }},
 		{"a is G in b.nope", func(a, b *model.Expr) *model.Expr { return model.IsIn(a, "G", model.Access(b, "nope")) }},
 		{"X is G in [a, b, 1]", func(a, b *model.Expr) *model.Expr { return model.IsIn(lx, "G", model.SetE(a, b, model.Lit(model.Long(1)))) }},
